@@ -328,6 +328,7 @@ func (f *Frame) loopEnv(li *loopInfo, st *State, phiVals map[*ssa.Phi]Term) map[
 		}
 		env[name] = Val{T: t, Go: phi.Type()}
 	}
+	env["$own"] = Val{} // marker: inside old(), parameter names denote entry values
 	return env
 }
 
@@ -475,27 +476,10 @@ func (f *Frame) loopCut(li *loopInfo, cur *State) {
 		un.note("loop " + f.loopName(li) + " havocs the whole heap (body calls a function with unknown effects)")
 	}
 	if mods["*nonghost"] && !mods["*"] {
-		un.havocAllButGhost(cur)
 		un.note("loop " + f.loopName(li) + " havocs all program state (not ghost state): body calls a function that may modify anything")
 	}
-	for _, k := range sortedBoolKeys(mods) {
-		if k == "*" || k == "*nonghost" {
-			continue
-		}
-		if strings.HasPrefix(k, "new:") {
-			if !mods[k[4:]] && !mods["*"] {
-				un.havocFresh(cur, k[4:])
-			}
-			continue
-		}
-		if un.eng.immutable[k] {
-			un.havocFresh(cur, k)
-		} else if s, ok := un.heapSort[k]; ok {
-			cur.H[k] = un.freshHeap(cur, k, s)
-		} else if s, ok := un.eng.heapSortHint[k]; ok {
-			un.heapInit(k, s)
-			cur.H[k] = un.freshHeap(cur, k, s)
-		}
+	if !mods["*"] {
+		f.havocHeaps(cur, mods)
 	}
 	for _, ins := range li.header.Instrs {
 		phi, ok := ins.(*ssa.Phi)
